@@ -176,6 +176,12 @@ def parseReply (seqs : List (List Char)) : Except Err (Tree Sym) → String
   | .ok t => "tree " ++ showTree seqs t
   | .error e => "err " ++ e.name
 
+/-- `parse(..., do_cleanup=True)`: the cleaned tree is not the property's subject, only that a tree is returned -/
+def parseReplyF (cleanup : Bool) (seqs : List (List Char)) (r : Except Err (Tree Sym)) : String :=
+  match cleanup, r with
+  | true, .ok _ => "accepted"
+  | _, r => parseReply seqs r
+
 def handle (st : DState) (line : String) : DState × String :=
   match splitWs line with
   | "reset" :: _ => ({}, "ok")
@@ -199,6 +205,15 @@ def handle (st : DState) (line : String) : DState × String :=
     | some (P, seqs), some toks => (st, parseReply seqs (P.parseFrom (parseName s) toks parseFuel))
     | none, _ => (st, "nogrammar")
     | _, none => (st, "bad-op")
+  | ["px", flags, s, _, raw] =>
+    -- `parse` with keyword arguments: flags `d` debug=True, `c` do_cleanup=True, `n` src_name given, `l` list of lines;
+    -- `s` = start_symbol_name or `-`.  `debug` and `src_name` do not enter the result.
+    match st.get, parseRaw raw with
+    | some (P, seqs), some toks =>
+      (st, parseReplyF (flags.contains 'c') seqs
+        (if s = "-" then P.parse toks parseFuel else P.parseFrom (parseName s) toks parseFuel))
+    | none, _ => (st, "nogrammar")
+    | _, none => (st, "bad-op")
   | [op] =>
     match st.get with
     | none => (st, "nogrammar")
@@ -212,7 +227,8 @@ def handle (st : DState) (line : String) : DState × String :=
         | "first" => showSetMap P.first
         | "follow" => showSetMap P.follow
         | "terminals" => showSet P.terminals
-        | _ => "bad-op")
+        -- observer methods of the parser object (`print_detailed_descr`, `str`, `repr`, …): pure, nothing to report
+        | _ => if op.startsWith "obs" then "ok" else "bad-op")
   | _ => (st, "bad-op")
 
 end LL.Drv
